@@ -1,7 +1,7 @@
 (* C08: a request that is rejected (answered 4xx/5xx) changes neither the store nor the
    cache, in the absence of store faults and except for the banned-subscriber case (finding #4). *)
 From Coq Require Import ZArith NArith List Bool Lia.
-From Tinode Require Import Base.Util Pure.Acs Sys.Topic Sys.TopicTac Sys.TopicFrame Sys.TopicCoh Sys.TopicCohProofs Sys.TopicCohStep.
+From Tinode Require Import Base.Util Pure.Acs Sys.Topic Sys.TopicTac Sys.TopicFrame Sys.TopicCohC08 Sys.TopicCohC08Proofs Sys.TopicCohC08Step.
 Import ListNotations.
 Open Scope Z_scope.
 
